@@ -166,6 +166,8 @@ def run(ctx):
             rep.corr('sched', case, real, model)
     else:
         rep.disagreements.append({'op': 'sched', 'case': 'driver unavailable', 'real': None, 'model': None})
+    from .. import pycorr
+    pycorr.run(ctx)
 
     def search(disagreements):
         rng2 = ctx.rng('search')
